@@ -668,6 +668,7 @@ fn probe_case(c: &Case, fails: &mut Vec<String>, stats: &mut std::collections::B
     *stats.entry("runs".into()).or_default() += 1;
     if rng.chance(1, 3) {
         frag_probe(c, fails, stats, rng);
+        lowpan_probe(c, fails, stats, rng);
     }
 }
 
@@ -782,6 +783,84 @@ fn frag_probe(c: &Case, fails: &mut Vec<String>, stats: &mut std::collections::B
     }
     if queued && sent < expected {
         fails.push(format!("c13-spin :: case {} fragment probe: {} of {} fragments still unsent after 300 polls at the demanded instants", c.id, expected - sent, expected));
+    }
+}
+
+/// Oracle on IEEE 802.15.4 / 6LoWPAN (oracle only: the differential stream is Ethernet): a UDP socket with a datagram
+/// for a link-local neighbour that never answers; the interface is driven by poll_at alone for ten seconds.  Neighbour
+/// solicitations may leave once per second; in between an idle poll must be followed by a later deadline
+/// (`c13-spin`) and a poll just before the reported deadline must transmit nothing (`c13-early-poll-transmits`).
+fn lowpan_probe(c: &Case, fails: &mut Vec<String>, stats: &mut std::collections::BTreeMap<String, u64>, rng: &mut Rng) {
+    use smoltcp::wire::{Ieee802154Address, Ieee802154Pan};
+    let slaac = c.get_i("slaac", 1) == 1;
+    let mut dev = QDev::new(Medium::Ieee802154, 127);
+    let hw = Ieee802154Address::Extended([0x02, 0, 0, 0, 0, 0, 0, 0x01]);
+    let mut cfg = Config::new(HardwareAddress::Ieee802154(hw));
+    cfg.random_seed = c.get_i("rs", 7) as u64;
+    cfg.pan_id = Some(Ieee802154Pan(0xbeef));
+    cfg.slaac = slaac;
+    let mut iface = Interface::new(cfg, &mut dev, Instant::ZERO);
+    iface.update_ip_addrs(|a| {
+        a.push(IpCidr::new(IpAddress::Ipv6(Ipv6Address::new(0xfe80, 0, 0, 0, 0, 0, 0, 1)), 64)).unwrap();
+    });
+    let storage: Vec<SocketStorage<'static>> = Vec::new();
+    let mut sockets = SocketSet::new(storage);
+    let rx = udp::PacketBuffer::new(vec![udp::PacketMetadata::EMPTY; 2], vec![0; 256]);
+    let tx = udp::PacketBuffer::new(vec![udp::PacketMetadata::EMPTY; 2], vec![0; 256]);
+    let h = sockets.add(udp::Socket::new(rx, tx));
+    let peer = IpAddress::Ipv6(Ipv6Address::new(0xfe80, 0, 0, 0, 0, 0, 0, 0x99));
+    let mut now_us: i64 = rng.below(2_000_000) as i64;
+    let end = now_us + 10_000_000;
+    let mut steps = 0;
+    let mut same_instant = 0;
+    *stats.entry("lowpan_probes".into()).or_default() += 1;
+    while now_us <= end && steps < 400 {
+        steps += 1;
+        let now = Instant::from_micros(now_us);
+        if steps == 2 {
+            let s = sockets.get_mut::<udp::Socket>(h);
+            let _ = s.bind(6000);
+            let _ = s.send_slice(b"anybody-there?", (peer, 9));
+        }
+        iface.poll(now, &mut dev, &mut sockets);
+        let ntx = dev.drain_tx().len();
+        let pa = iface.poll_at(now, &sockets);
+        if ntx == 0 {
+            if let Some(t) = pa {
+                if t <= now {
+                    fails.push(format!("c13-spin :: case {} 6LoWPAN probe at {}us: idle poll (no rx, no tx) but poll_at = {}us <= now (slaac={})", c.id, now_us, t.total_micros(), slaac));
+                    return;
+                }
+            }
+            same_instant = 0;
+        } else {
+            same_instant += 1;
+            if same_instant > 20 {
+                fails.push(format!("c13-spin :: case {} 6LoWPAN probe at {}us: 20 transmitting polls at one instant", c.id, now_us));
+                return;
+            }
+        }
+        match pa {
+            Some(t) if t > now => {
+                // early probe: one microsecond before the deadline nothing may leave
+                let early = Instant::from_micros(t.total_micros() - 1);
+                if early > now {
+                    iface.poll(early, &mut dev, &mut sockets);
+                    let n_early = dev.drain_tx().len();
+                    if n_early > 0 {
+                        fails.push(format!("c13-early-poll-transmits :: case {} 6LoWPAN probe: poll at {}us returned poll_at={}us but a poll at {}us transmitted {} frame(s)", c.id, now_us, t.total_micros(), early.total_micros(), n_early));
+                        return;
+                    }
+                }
+                now_us = t.total_micros();
+            }
+            Some(_) => now_us += 0,
+            None => now_us += 1_000_000,
+        }
+        if pa.map(|t| t <= now).unwrap_or(false) && ntx > 0 {
+            // transmitted and wants an immediate poll: allowed, bounded by same_instant
+            continue;
+        }
     }
 }
 
